@@ -380,9 +380,14 @@ class Interp:
             if segs[0] == "DVec4": c = c + (c[0] if segs[1] in ("ZERO", "ONE", "NEG_ONE") else 0,)
             return Vec([Const(x, "Real") for x in c])
         key = "::".join(segs)
-        if key in self.consts: return self.consts[key]
-        if len(segs) == 2 and segs[0] == "Self" and env.self_ty and (env.self_ty + "::" + segs[1]) in self.consts:
-            return self.consts[env.self_ty + "::" + segs[1]]
+        if len(segs) == 2 and segs[0] == "Self" and env.self_ty and key not in self.consts and (env.self_ty + "::" + segs[1]) in self.consts:
+            key = env.self_ty + "::" + segs[1]
+        if key in self.consts:
+            cv = self.consts[key]
+            if isinstance(cv, tuple) and len(cv) == 3 and cv[0] == "constexpr":
+                # an associated const with a non-literal initialiser: evaluate the initialiser expression (it reads no local)
+                return self.ev(env, cv[1])
+            return cv
         if len(segs) == 2 and segs[0] in self.enums and segs[1] in self.enums[segs[0]]:
             vs = self.enums[segs[0]]
             return Enum(segs[0], vs, Const(vs.index(segs[1]), "Int"))
